@@ -296,10 +296,27 @@ public:
     }
 
 private:
+    // Nesting is bounded so that hostile documents cannot exhaust the stack.
+    static constexpr std::size_t kMaxDepth = 128;
+
+    struct DepthGuard {
+        explicit DepthGuard(std::size_t& depth) : depth_(depth) {
+            if (depth_ >= kMaxDepth) {
+                throw std::runtime_error("JSON document is nested too deeply");
+            }
+            ++depth_;
+        }
+        ~DepthGuard() { --depth_; }
+        DepthGuard(const DepthGuard&) = delete;
+        DepthGuard& operator=(const DepthGuard&) = delete;
+        std::size_t& depth_;
+    };
+
     JsonValue parse_value() {
         if (eof()) {
             throw std::runtime_error("Unexpected end of JSON input");
         }
+        const DepthGuard depth_guard(depth_);
         const char ch = peek();
         if (ch == '"') {
             JsonValue value;
@@ -496,7 +513,7 @@ private:
         return output;
     }
 
-    std::string parse_unicode_escape() {
+    unsigned int parse_hex4() {
         if (pos_ + 4 > input_.size()) {
             throw std::runtime_error("Truncated unicode escape");
         }
@@ -514,6 +531,24 @@ private:
             } else {
                 throw std::runtime_error("Invalid unicode escape");
             }
+        }
+        return codepoint;
+    }
+
+    std::string parse_unicode_escape() {
+        unsigned int codepoint = parse_hex4();
+        if (codepoint >= 0xD800 && codepoint <= 0xDBFF) {
+            // High surrogate: RFC 8259 encodes code points beyond the BMP as a \uXXXX\uXXXX pair.
+            if (!match('\\') || !match('u')) {
+                throw std::runtime_error("Unpaired surrogate in unicode escape");
+            }
+            const unsigned int low = parse_hex4();
+            if (low < 0xDC00 || low > 0xDFFF) {
+                throw std::runtime_error("Invalid low surrogate in unicode escape");
+            }
+            codepoint = 0x10000 + ((codepoint - 0xD800) << 10) + (low - 0xDC00);
+        } else if (codepoint >= 0xDC00 && codepoint <= 0xDFFF) {
+            throw std::runtime_error("Unpaired surrogate in unicode escape");
         }
         std::string utf8;
         append_utf8(codepoint, utf8);
@@ -577,7 +612,7 @@ private:
     }
 
     char peek() const {
-        return input_[pos_];
+        return eof() ? '\0' : input_[pos_];
     }
 
     char get() {
@@ -586,6 +621,7 @@ private:
 
     std::string_view input_;
     std::size_t pos_{0};
+    std::size_t depth_{0};
 };
 
 const JsonValue* expect_string_field(const JsonValue& object, std::string_view key, std::string& error) {
